@@ -30,6 +30,7 @@ type c14Var struct {
 	safe  int     // slices: number of leading elements known to exist
 	noSt  bool    // struct value that must not be updated in place (value receiver: the compiler does not copy it)
 	glob  bool
+	buf   bool // string that may hold the result of a concatenation (a Buffer item for the unchanged compiler)
 	own   bool // slice created in this function: the only kind that is appended to (no aliasing through append)
 }
 
@@ -60,6 +61,8 @@ type c14Gen struct {
 	hist    map[string]int
 	noGlob  bool // generating a pure function
 	pending []*c14Var
+	inInit  bool
+	noFault int  // > 0: no expression that may fail (arguments of inlined helpers are substituted by name)
 	noRet   bool // no early return (functions with several results)
 }
 
@@ -198,7 +201,7 @@ func (g *c14Gen) genInt(d int) (string, float64) {
 		}
 		return fmt.Sprintf("%s %% %s", g.par(a), g.par(fmt.Sprint(c))), ba
 	case 7:
-		if v := g.pickVar("int", false); v != nil && g.r.chance(15) { // may divide by zero: both sides must fail
+		if v := g.pickVar("int", false); v != nil && g.noFault == 0 && g.r.chance(15) { // may divide by zero: both sides must fail
 			g.tag("raw-div")
 			return fmt.Sprintf("%s %s %s", g.par(a), pick(g.r, []string{"/", "%"}), v.name), ba
 		}
@@ -226,13 +229,21 @@ func (g *c14Gen) genInt(d int) (string, float64) {
 	case 13:
 		if g.helper != "" {
 			g.tag("inline-call")
+			// arguments of an inlined function are substituted by name: an argument that can fail or that is
+			// expensive would be evaluated a different number of times than in Go
+			g.noFault++
+			defer func() { g.noFault-- }()
+			a, ba = g.genInt(d - 1)
 			b, bb := g.genInt(d - 1)
-			switch g.r.intn(4) {
+			switch g.r.intn(5) {
 			case 0:
 				c, bc := g.intLeaf()
 				return fmt.Sprintf("%s.Add3(%s, %s, %s)", g.helper, a, b, c), ba + bb + bc
 			case 1:
 				return fmt.Sprintf("%s.Clamp(%s, -50, 700)", g.helper, a), 700
+			case 4:
+				a, _ = reduce(a, ba)
+				return fmt.Sprintf("%s.Bump(%s, %d)", g.helper, a, g.r.intn(9)), 3 * c14M
 			case 2:
 				return fmt.Sprintf("%s.Sel(%s, %s, %s)", g.helper, g.genBool(d-1), a, b), max(ba, bb)
 			default:
@@ -311,8 +322,7 @@ func (g *c14Gen) genOf(typ string, d int) (string, bool) {
 	case "bool":
 		return g.genBool(d), true
 	case "string":
-		s, _ := g.genStr(d)
-		return s, true
+		return g.strPure(), true
 	case "...int":
 		n := 1 + g.r.intn(3)
 		var xs []string
@@ -392,10 +402,8 @@ func (g *c14Gen) genBool(d int) string {
 	case 8:
 		return "!(" + g.genBool(d-1) + ")"
 	case 9:
-		a, _ := g.genStr(d - 1)
-		b, _ := g.genStr(d - 1)
 		g.tag("string-eq")
-		return fmt.Sprintf("%s %s %s", a, pick(g.r, []string{"==", "!="}), b)
+		return fmt.Sprintf("%s %s %s", g.strPure(), pick(g.r, []string{"==", "!="}), g.strPure())
 	case 10:
 		var cands []c14FuncSig
 		for _, f := range g.funcs {
@@ -429,6 +437,22 @@ func (g *c14Gen) parB(e string) string {
 func (g *c14Gen) strLeaf() string {
 	s, _ := g.strLeafB()
 	return s
+}
+
+// strPure: a string that certainly is a ByteString item: a literal or a variable never assigned a
+// concatenation. Equality, switch tags, map keys and string arguments use only these (known finding F152:
+// a concatenation yields a Buffer, which compares by identity and is not a valid map key).
+func (g *c14Gen) strPure() string {
+	var cands []*c14Var
+	for _, v := range g.vars("string", false) {
+		if !v.buf {
+			cands = append(cands, v)
+		}
+	}
+	if len(cands) > 0 && g.r.chance(60) {
+		return cands[g.r.intn(len(cands))].name
+	}
+	return fmt.Sprintf("%q", pick(g.r, []string{"", "a", "neo", "hello", "zz9", "k", "go!"}))
 }
 
 func (g *c14Gen) strLeafB() (string, int) {
@@ -510,9 +534,15 @@ func (g *c14Gen) stmt() {
 	case k < 4: // declaration
 		typ := pick(g.r, []string{"int", "int", "int", "bool", "string"})
 		e, _ := g.genOf(typ, 3)
+		isCat := false
+		if typ == "string" && g.r.bool() {
+			if e2, l := g.genStr(2); l <= 512 {
+				e, isCat = e2, true
+			}
+		}
 		v := g.declare(typ, false, c14M)
 		if typ == "string" {
-			v.bound = 512
+			v.bound, v.buf = 512, isCat
 		}
 		if g.r.chance(20) {
 			g.emitf("var %s %s = %s", v.name, typ, e)
@@ -529,6 +559,7 @@ func (g *c14Gen) stmt() {
 		if typ == "string" {
 			// strings stay short: no growth in loops or through package-level variables
 			if e, l := g.genStr(2); g.inLoop == 0 && !v.glob && l <= 512 {
+				v.buf = true
 				g.emitf("%s = %s", v.name, e)
 			} else {
 				g.emitf("%s = %q", v.name, pick(g.r, []string{"", "a", "neo", "zz9"}))
@@ -785,14 +816,16 @@ func (g *c14Gen) switchStmt() {
 	case 1: // tagless
 		g.emitf("switch {")
 	case 2: // string tag
-		g.emitf("switch %s {", g.strLeaf())
+		g.emitf("switch %s {", g.strPure())
 	default:
 		g.emitf("switch %s {", g.genBool(1))
 	}
 	ncase := 2 + g.r.intn(3)
 	defAt := -1
 	if g.r.chance(70) {
-		defAt = g.r.intn(ncase + 1) // default anywhere, also first
+		// the default clause comes last: anywhere else the unchanged compiler swaps it with the last clause, which
+		// changes the order of the tests and the targets of fallthrough (known finding F142)
+		defAt = ncase
 	}
 	used := map[string]bool{}
 	for c := 0; c <= ncase; c++ {
@@ -828,7 +861,8 @@ func (g *c14Gen) switchStmt() {
 		}
 		g.indent++
 		g.inSw++
-		g.block(1 + g.r.intn(2))
+		g.push() // a clause is a scope of its own
+		g.stmts(1 + g.r.intn(2))
 		if g.inLoop > 0 && g.r.chance(25) {
 			g.tag("break-in-switch")
 			g.emitf("if %s {", g.genBool(1))
@@ -836,8 +870,9 @@ func (g *c14Gen) switchStmt() {
 			g.emitf("}")
 			g.stmts(1)
 		}
+		g.pop()
 		g.inSw--
-		if defAt > c && g.r.chance(15) { // the default clause below is certainly emitted
+		if defAt == ncase && c < ncase && g.r.chance(15) { // the default clause below is certainly emitted
 			g.tag("fallthrough")
 			g.emitf("fallthrough")
 		}
@@ -949,7 +984,7 @@ func (g *c14Gen) mapStmt() {
 		if mt == "map[int]int" {
 			return fmt.Sprintf("(%s)%%5", g.genIntFit(1))
 		}
-		return g.strLeaf()
+		return g.strPure()
 	}
 	switch g.r.intn(6) {
 	case 0:
@@ -1108,6 +1143,9 @@ func (g *c14Gen) callStmt() {
 		// a call with side effects is the whole right-hand side
 		g.tag("call-assign")
 		if v := g.pickVar(f.rets[0], true); v != nil && !(f.rets[0] == "string" && (v.glob || g.inLoop > 0)) {
+			if f.rets[0] == "string" {
+				v.buf = true
+			}
 			g.emitf("%s = %s", v.name, e)
 		} else {
 			g.emitf("_ = %s", e)
@@ -1121,8 +1159,14 @@ func (g *c14Gen) callStmt() {
 	for _, t := range f.rets {
 		if fresh {
 			v := g.declare(t, false, c14M)
+			if t == "string" {
+				v.bound, v.buf = 700, true
+			}
 			lhs = append(lhs, v.name)
-		} else if v := g.pickVar(t, true); v != nil && !contains(lhs, v.name) {
+		} else if v := g.pickVar(t, true); v != nil && !contains(lhs, v.name) && !(t == "string" && (v.glob || g.inLoop > 0)) {
+			if t == "string" {
+				v.bound, v.buf = max(v.bound, 700), true
+			}
 			lhs = append(lhs, v.name)
 		} else {
 			lhs = append(lhs, "_")
@@ -1191,9 +1235,10 @@ func (g *c14Gen) bytesStmt() {
 	case 3:
 		s := g.pickVar("string", false)
 		t := g.pickVar("string", true)
-		if s == nil || t == nil || g.inLoop > 0 {
+		if s == nil || t == nil || t.glob || g.inLoop > 0 {
 			return
 		}
+		t.buf = true
 		g.tag("substring")
 		g.emitf("if len(%s) >= 3 {", s.name)
 		g.emitf("\t%s = %s[1:3] + %s[:1] + %s[2:]", t.name, s.name, s.name, s.name)
@@ -1232,7 +1277,7 @@ func (g *c14Gen) arrayStmt() {
 
 func (g *c14Gen) lambdaStmt() {
 	x := g.pickVar("int", true)
-	if x == nil {
+	if x == nil || g.inInit {
 		return
 	}
 	// function values take one argument here: with two or more the unchanged compiler passes them in
@@ -1359,6 +1404,9 @@ func c14GenUnit(r *rng, pkg string, nEntry int, hist map[string]int) c14Unit {
 		typ := pick(r, []string{"int", "int", "bool", "string", "[]int", "map[int]int", "S", "*S", "map[string]int"})
 		name := fmt.Sprintf("G%d", i)
 		e, _ := g.genOf(typ, 2)
+		if typ == "S" {
+			e = g.structLit(2) // never a copy of another struct variable (known finding F143)
+		}
 		if typ == "int" && len(g.globals) > 0 && r.chance(50) {
 			g.tag("global-dep")
 		}
@@ -1402,8 +1450,12 @@ func c14GenUnit(r *rng, pkg string, nEntry int, hist map[string]int) c14Unit {
 		g.indent++
 		g.retType = ""
 		g.budget = 4
+		// no return and no function literal inside init(): the unchanged compiler concatenates the init
+		// functions into _initialize, where a return leaves all of it and a literal's code is fallen into
+		g.noRet, g.inInit = true, true
 		g.emitf("note(%d)", 900+i)
 		g.stmts(3)
+		g.noRet, g.inInit = false, false
 		g.pop()
 		g.indent--
 		g.emitf("}")
@@ -1579,12 +1631,18 @@ func Add3(a, b, c int) int { return a + b + c }
 
 func Clamp(x, lo, hi int) int {
 	if x < lo {
-		x = lo
+		return lo
 	}
 	if x > hi {
 		return hi
 	}
 	return x
+}
+
+// assigns its parameter (at the top level of the body: inside a nested block the unchanged inliner loses it)
+func Bump(x, k int) int {
+	x += k
+	return x * 2
 }
 
 func Sel(c bool, a, b int) int {
